@@ -39,9 +39,9 @@ def identify_flags(c):
 
 # ------------------------------------------------------------------ definitions
 def definitions_stage(c, cfg):
-  n_valid = 500 if c.tier == 'quick' else 6000
-  n_fault = 500 if c.tier == 'quick' else 6000
-  n_mal = 60 if c.tier == 'quick' else 600
+  n_valid = 1200 if c.tier == 'quick' else 8000
+  n_fault = 1500 if c.tier == 'quick' else 10000
+  n_mal = 150 if c.tier == 'quick' else 1000
   cases = []
   for i in range(n_valid + n_fault):
     names = sl.name_stream(c.rng)
@@ -118,7 +118,7 @@ def _levels(n):
 
 # ------------------------------------------------------------------ spaces (duplicate names)
 def spaces_stage(c, cfg):
-  n = 150 if c.tier == 'quick' else 2000
+  n = 400 if c.tier == 'quick' else 3000
   cases = []
   for _ in range(n):
     names = sl.name_stream(c.rng)
@@ -157,8 +157,8 @@ def spaces_stage(c, cfg):
 
 # ------------------------------------------------------------------ membership
 def membership_stage(c, cfg):
-  n_spaces = 120 if c.tier == 'quick' else 1200
-  per = 14 if c.tier == 'quick' else 25
+  n_spaces = 300 if c.tier == 'quick' else 2500
+  per = 16 if c.tier == 'quick' else 25
   reqs, meta = [], []
   for si in range(n_spaces):
     names = sl.name_stream(c.rng)
@@ -266,7 +266,7 @@ def _walk_real(ss, order, choice):
 
 
 def walk_stage(c, cfg):
-  n = 250 if c.tier == 'quick' else 3000
+  n = 600 if c.tier == 'quick' else 5000
   reqs, meta = [], []
   for _ in range(n):
     names = sl.name_stream(c.rng)
@@ -329,8 +329,9 @@ def walk_stage(c, cfg):
       if mm.get('ok') != seen:
         c.tie_break('SequentialParameterBuilder visit order', case, seen, mm)
       # property: exactly the active parameters (Lean activeSpace on the real tree), each once; dfs = preorder
-      names_all = [d['name'] for d in sl.all_pcs(dumped)]
-      if len(set(names_all)) == len(names_all):
+      if not m['nodeOK']:
+        c.prop_fail('tree-subspace-keys-not-of-internal-kind', 'a built tree stores a subspace under a key that is not of the parent\'s internal kind', case)
+      if m['uniqueNames'] and m['nodeOK']:
         act = m['active']
         if sorted(seen) != sorted(act) or (order == 'dfs' and seen != act):
           c.prop_fail('builder-visits-not-active:' + order,
@@ -352,8 +353,8 @@ def client_stage(c, cfg):
   from vizier import pyvizier as vz
   from vizier.service import pyvizier as svz
   from vizier._src.service import clients, vizier_client
-  n_spaces = 4 if c.tier == 'quick' else 20
-  per = 12 if c.tier == 'quick' else 25
+  n_spaces = 6 if c.tier == 'quick' else 30
+  per = 14 if c.tier == 'quick' else 25
   backends = [('ram', {'database_url': None}), ('sql', {'database_url': 'sqlite:///:memory:'})]
   reqs, meta = [], []
   saved = dict(vizier_client.environment_variables.servicer_kwargs)
@@ -365,7 +366,8 @@ def client_stage(c, cfg):
       for si in range(n_spaces):
         names = sl.name_stream(c.rng)
         conditional = si == 0
-        nodes = [sl.gen_tree(c.rng, names, 2 if conditional else 1, p_child=1.0 if conditional else 0.0)
+        # wire_safe: an INTEGER parameter with a bool bound/default cannot be written to the StudySpec proto (int64 field)
+        nodes = [sl.gen_tree(c.rng, names, 2 if conditional else 1, p_child=1.0 if conditional else 0.0, wire_safe=True)
                  for _ in range(c.rng.randrange(1, 4))]
         try:
           ss = sl.build_space(nodes)
